@@ -164,6 +164,7 @@ pub fn run_case(ctx: &mut Ctx, c: &Case) {
         ReadPlan::ReadToEnd => ctx.count("plan_read_to_end", 1),
         ReadPlan::TextReader { .. } => ctx.count("plan_text_reader", 1),
         ReadPlan::Json(_) => ctx.count("plan_json", 1),
+        ReadPlan::PrefixThen { .. } => ctx.count("plan_prefix_then_helper", 1),
     }
     if nsteps == built.wire.len() && nsteps > 1 {
         ctx.count("bytewise_cases", 1);
